@@ -11,6 +11,10 @@ C03, workflow-level theorem: the class `Simple` for which `Model.run w` and `Spe
     the node's own axes are pairwise disjoint and duplicate-free (`NoSharedOrigin` at the level of axes), and no connected
     upstream state is itself fed by another connected upstream state.
 
+    (The "one field" and "not fed by another connected one" conditions are consequences of the axis condition — a state that
+    feeds two fields, or that sits below another connected state, contributes its axes twice — and are listed because the
+    proofs use them directly: the class is "no combiner, no scalar splitter, the merged axes of every node are duplicate-free".)
+
 All of it is decidable (`Simple.simple : Wf → Bool`) and is evaluated by the driver on every generated workflow.
 -/
 namespace PydraModel.WfState.Simple
